@@ -12,6 +12,7 @@ import KadDHT.Driver.C01v
 import KadDHT.Driver.C02v
 import KadDHT.Driver.C03
 import KadDHT.Driver.C04
+import KadDHT.Driver.C08
 open KadDHT.Driver
 
 def main (args : List String) : IO UInt32 := do
@@ -19,6 +20,8 @@ def main (args : List String) : IO UInt32 := do
   | ["C18"] => runPure C18.handle; return 0
   | ["C18v"] => runPure C18v.handle; return 0
   | ["C19"] => runLoop C19.step {}; return 0
+  | ["C08"] => runLoop C08.step {}; return 0
+  | ["C08v"] => runLoop C08.verdict {}; return 0
   | ["C04v"] => runLoop C04.verdict {}; return 0
   | ["C04"] => runLoop C04.step {}; return 0
   | ["C03"] => runLoop C03.step (); return 0
